@@ -535,6 +535,7 @@ class Body:
         self.blocks = {}  # name -> Block
         self.order = []
         self.debug = {}  # local -> source name
+        self.upvars = {}  # captured variable name -> capture index (closures / async blocks)
         self.text_hash = None
         self.const_value = None  # for single-line consts
         self.span = None  # (file, line) of impl for methods
@@ -590,6 +591,10 @@ def parse_body(name, kind, lines):
                 pm = re.fullmatch(r"_(\d+)", m.group(2))
                 if pm:
                     b.debug[int(pm.group(1))] = m.group(1)
+                # captured variables of closures / async blocks: `debug x => ((*_N).K: T)` or `debug x => (_1.K: T)`
+                um = re.match(r"^\(+\*?_\d+\)?\.(\d+): ", m.group(2))
+                if um:
+                    b.upvars[m.group(1)] = int(um.group(1))
                 continue
             if line.startswith("scope ") or line == "}":
                 continue
